@@ -467,18 +467,38 @@ func (ms *Modules) Process() []error {
 		ToEntry(m).FixChoice()
 	}
 
+	// An augment whose path runs through an implicit case can only be
+	// applied now. It may be the target of further augments and may have
+	// brought choices of its own, so repeat as above until no progress is
+	// made.
+	for len(mods) > 0 {
+		var processed int
+		for i := 0; i < len(mods); {
+			m := mods[i]
+			p, s := ToEntry(m).Augment(false)
+			processed += p
+			if s == 0 {
+				mods[i] = mods[len(mods)-1]
+				mods = mods[:len(mods)-1]
+				continue
+			}
+			i++
+		}
+		if processed == 0 {
+			break
+		}
+		for _, m := range ms.Modules {
+			ToEntry(m).FixChoice()
+		}
+		for _, m := range ms.SubModules {
+			ToEntry(m).FixChoice()
+		}
+	}
+
 	// Go through any modules that have remaining augments and collect
 	// the errors.
 	for _, m := range mods {
 		ToEntry(m).Augment(true)
-	}
-	// An augment that could only be applied now (its path runs through an
-	// implicit case) may have brought choices of its own.
-	for _, m := range ms.Modules {
-		ToEntry(m).FixChoice()
-	}
-	for _, m := range ms.SubModules {
-		ToEntry(m).FixChoice()
 	}
 	// Augmentation may have recorded errors anywhere (e.g., on the target
 	// of a conflicting augment), so collect from all modules again.
